@@ -19,8 +19,8 @@ CtxForms == CASE Which = "c01" -> C01CtxForms [] Which = "c03" -> C03CtxForms []
 
 ASSUME InitRegisters
 ASSUME SetContext(CtxForms)
-ASSUME TLCSet(3, G)
-ASSUME TLCSet(4, CountTab(G, MaxSize, <<>>))
+ASSUME TLCSet(3, Norm(G))
+ASSUME TLCSet(4, Norm(CountTab(G, MaxSize, <<>>)))
 ASSUME PrintT("CTX " \o ToJson([name |-> Which, forms |-> CtxForms]))
 
 VARIABLES sz, idx, ph
